@@ -968,6 +968,38 @@ func (ch *Chain) Cancel() {
 	ch.count = 0
 }
 
+// rcodeReplyExtra builds the additional section of an rcode-only reply from
+// the request's. The reply answers with the request's OPT, but on a copy
+// and without the request's options: this reply may be written by a handler
+// that runs ahead of the edns middleware (ratelimit's BADCOOKIE), before its
+// response writer exists (BADVERS) or after it has been unwound (recovery),
+// so nothing downstream strips what the client sent — its subnet, padding,
+// keepalive or NSID request — or the subnet option edns attached for
+// forwarding. Only the COOKIE option stays: it is the one option a server
+// echoes (RFC 7873 §5.2.3), and the BADCOOKIE caller has completed it with
+// the server half.
+func rcodeReplyExtra(extra []dns.RR) []dns.RR {
+	if len(extra) == 0 {
+		return extra
+	}
+	out := make([]dns.RR, 0, len(extra))
+	for _, rr := range extra {
+		opt, ok := rr.(*dns.OPT)
+		if !ok {
+			out = append(out, rr)
+			continue
+		}
+		reply := &dns.OPT{Hdr: opt.Hdr}
+		for _, option := range opt.Option {
+			if option.Option() == dns.EDNS0COOKIE {
+				reply.Option = append(reply.Option, option)
+			}
+		}
+		out = append(out, reply)
+	}
+	return out
+}
+
 // CancelWithRcode writes a reply with the given rcode and stops the
 // chain. do controls the DO bit in the response's OPT record.
 func (ch *Chain) CancelWithRcode(rcode int, do bool) {
@@ -981,7 +1013,7 @@ func (ch *Chain) CancelWithRcode(rcode int, do bool) {
 		}
 	}
 	m := new(dns.Msg)
-	m.Extra = req.Extra
+	m.Extra = rcodeReplyExtra(req.Extra)
 	m.SetRcode(req, rcode)
 	m.RecursionAvailable = true
 	m.RecursionDesired = true
